@@ -49,6 +49,88 @@ def subsets_cases(sig, r, fresh):
              'species': r.choice(SPECIES)}
 
 
+# ----------------------------------------------------------------------------------------
+# callables whose defaults have identity (sentinels, mutable registries): whatever was done to the
+# Config before the build - deep copies included - an unset parameter receives the callable's OWN
+# default object
+
+_S_HOOK, _S_A, _S_B, _S_C, _S_K = object(), object(), object(), object(), object()
+_REG = {}
+_OWN = {'hook': _S_HOOK, 'a': _S_A, 'b': _S_B, 'c': _S_C, 'k': _S_K, 'reg': _REG}
+
+
+def _report(**named):
+  return {n: ('own-default' if v is _OWN.get(n) else ('foreign-object' if type(v) in (object, dict) else v))
+          for n, v in named.items()}
+
+
+def idf_stage(name, hook=_S_HOOK, *inputs):
+  return dict(_report(name=name, hook=hook), var=list(inputs))
+
+
+def idf_register(name, reg=_REG, /, *aliases):
+  return dict(_report(name=name, reg=reg), var=list(aliases))
+
+
+def idf_mixed(a=_S_A, b=_S_B, /, c=_S_C, *rest, k=_S_K):
+  return dict(_report(a=a, b=b, c=c, k=k), var=list(rest))
+
+
+IDF = {'stage': (idf_stage, ['name', 'hook'], ['hook']),
+       'register': (idf_register, ['name', 'reg'], ['reg']),
+       'mixed': (idf_mixed, ['a', 'b', 'c'], ['a', 'b', 'c', 'k'])}
+
+
+def run_identity_defaults(case):
+  import copy
+  import pickle
+  r = __import__('random').Random(case['seed'])
+  fn, positional, defaulted = IDF[case['fn']]
+  n_pos = r.randint(0, len(positional))
+  args = [r.randint(1, 9) for _ in range(n_pos)]
+  cfg = fdl.Config(fn, *args)
+  if r.random() < 0.8:
+    cfg[fdl.VARARGS:] = [r.randint(10, 19) for _ in range(r.randint(1, 3))]
+  for n in defaulted:
+    if r.random() < 0.5:
+      try:
+        delattr(cfg, n)
+      except Exception:
+        pass
+  if case['fn'] == 'mixed' and r.random() < 0.3:
+    cfg.k = 5
+  how = case['how']
+  made = {'none': lambda c: c, 'deepcopy': copy.deepcopy, 'deepcopy_with': fdl.deepcopy_with,
+          'copy': copy.copy, 'copy_with': fdl.copy_with,
+          'pickle': lambda c: pickle.loads(pickle.dumps(c)),
+          'deepcopy_twice': lambda c: copy.deepcopy(copy.deepcopy(c))}[how](cfg)
+  obs = {'identity_defaults': True, 'how': how, 'cfg': repr(cfg)}
+  # the direct call with what the Config reports (trailing unset positional slots left out)
+  view = list(made[:])
+  while view and view[-1] is fdl.NO_VALUE:
+    view.pop()
+  kw = {k: v for k, v in made.__arguments__.items() if isinstance(k, str) and k == 'k'}
+  try:
+    if any(v is fdl.NO_VALUE for v in view):
+      raise TypeError('gap')
+    obs['direct'] = fn(*view, **kw)
+  except TypeError:
+    obs['direct'] = 'err'
+  try:
+    obs['built'] = fdl.build(made)
+  except Exception:
+    obs['built'] = 'err'
+  return obs, None
+
+
+def identity_default_cases(tier, r):
+  for _ in range(150 if tier == 'quick' else 3000):
+    yield 'identity_defaults', {'identity_defaults': True, 'seed': r.getrandbits(48),
+                                'fn': r.choice(sorted(IDF)),
+                                'how': r.choice(['none', 'deepcopy', 'deepcopy_with', 'copy', 'copy_with',
+                                                 'pickle', 'deepcopy_twice'])}
+
+
 def _delegated_cases(tier, r):
   """Cases of C02's check that exercise clauses this property shares with it."""
   import importlib
@@ -64,6 +146,7 @@ def _delegated_cases(tier, r):
 
 def cases(tier, r):
   yield from _cases(tier, r)
+  yield from identity_default_cases(tier, r)
   yield from _delegated_cases(tier, r)
 
 
@@ -79,6 +162,13 @@ def _cases(tier, r):
     fresh = argstore.Fresh()
     args, kwargs = argstore.gen_init(r, sig, fresh)
     ops = argstore.gen_ops(r, sig, fresh, r.randint(0, 6))
+    if r.random() < 0.2:
+      # the callable is switched for one with another signature - often over the SAME names under
+      # other kinds - and the stored arguments are kept: build must still call it with exactly
+      # what the Config reports, or raise
+      new_sig = argstore.rekind_sig(r, sig) if r.random() < 0.7 else argstore.random_sig(r, max_named=5)
+      ops = ops + [['update_callable', new_sig, r.random() < 0.4]] + \
+          argstore.gen_ops(r, new_sig, fresh, r.randint(0, 3))
     case = {'p': 'argstore', 'sig': sig, 'args': args, 'kwargs': kwargs, 'ops': ops,
             'species': r.choice(SPECIES)}
     if r.random() < 0.03:
@@ -113,6 +203,8 @@ def execute(case):
     real = dict(real)
     real['__delegate'] = case['delegate']
     return real, req
+  if case.get('identity_defaults'):
+    return run_identity_defaults(case)
   if case.get('graph'):
     # nested Buildables inside lists, tuples, dicts and named tuples: compare fdl.build with
     # the direct evaluation (harness/graphs.py::ref_build); the model side is Graph.build
@@ -137,6 +229,8 @@ def compare(real, model):
     import importlib
     inner = {k: v for k, v in real.items() if k != '__delegate'}
     return importlib.import_module('harness.props.' + real['__delegate']).compare(inner, model)
+  if real.get('identity_defaults'):
+    return []
   if 'ref_canon' in real:
     from harness.props import C02
     return C02.compare(real, model)
@@ -174,14 +268,22 @@ def expected_binding(sig, state):
   # **kwargs entries: in the order in which they were configured (the stored arguments), since a
   # callable may depend on keyword order (PEP 468)
   stored = state.get('args_real') or state['oa']
-  return {'slots': slots, 'var': view[P:],
-          'kw': [[k, v] for k, v in stored if isinstance(k, str) and k not in kwnames]}
+  kw = [[k, v] for k, v in stored if isinstance(k, str) and k not in kwnames]
+  if kw and not any(p[1] == 'vk' for p in sig):
+    return 'err'     # a configured name the callable cannot take as a keyword: f(**{name: v}) raises
+  return {'slots': slots, 'var': view[P:], 'kw': kw}
 
 
 def oracle(case, real):
   if case.get('delegate'):
     import importlib
     return importlib.import_module('harness.props.' + case['delegate']).oracle(case['case'], real)
+  if real.get('identity_defaults'):
+    if real['built'] != real['direct']:
+      return {'what': 'build did not call the callable with what the Config reports (a parameter left '
+                      'unset must receive the callable\'s own default object)',
+              'config': real['cfg'], 'after': real['how'], 'direct call': real['direct'], 'build': real['built']}
+    return None
   if 'ref_canon' in real:
     rb, ref = real['build'], real['ref_canon']
     if 'raised' in rb or (isinstance(ref, dict) and 'raised' in ref):
@@ -194,9 +296,15 @@ def oracle(case, real):
     return None
   if real['init'] == 'err':
     return None
-  states = [('init', real['init'])] + [(f'step{i}', s['state']) for i, s in enumerate(real['steps'])]
-  for where, st in states:
-    exp = expected_binding(case['sig'], st)
+  sig = case['sig']
+  states = [('init', real['init'], sig)]
+  for i, s in enumerate(real['steps']):
+    op = case['ops'][i]
+    if op[0] == 'update_callable' and s['res'] == 'ok':
+      sig = op[1]
+    states.append((f'step{i}', s['state'], sig))
+  for where, st, sig in states:
+    exp = expected_binding(sig, st)
     if isinstance(exp, dict) and 'inconsistent_reports' in exp:
       return {'where': where, 'what': 'cfg[:] and ordered_arguments disagree', 'detail': exp}
     if exp != st['build']:
@@ -210,6 +318,8 @@ def nontrivial(case, real):
     import importlib, json as _json
     k = importlib.import_module('harness.props.' + case['delegate']).nontrivial(case['case'], real)
     return None if k is None else ('via', _json.dumps(k, default=str))
+  if real.get('identity_defaults'):
+    return ('identity_defaults', case['fn'], case['how'], real['built'] == 'err')
   if 'ref_canon' in real:
     return ('nested', case['seed']) if 'raised' not in real['build'] else None
   if real['init'] == 'err':
